@@ -64,6 +64,15 @@ func (e *Engine) GenUnit(fn *ssa.Function) (u *Unit) {
 	g.entryEnv = g.contractEnv(fc, fn, sig, argTerms, bindTerms, nil, g.old0, nil)
 	// receiver / pointer parameters of a type with a type invariant: assumed at entry
 	g.assumeTypeInvs(fn, argTerms)
+	// invariants over the package variables of the function's package hold at every entry
+	for _, gi := range e.DB.GlobalInvs[pkgPathOf(fn)] {
+		t, err := g.entryEnv.EvalBool(gi.Expr)
+		if err != nil {
+			g.unsupported("globalinv: %v", err)
+			continue
+		}
+		g.assume(t)
+	}
 	for _, r := range fc.Requires {
 		t, err := g.entryEnv.EvalBool(r.Expr)
 		if err != nil {
@@ -680,6 +689,16 @@ func (g *vcgen) exit(fc *FuncContract, sig *types.Signature, args, binds []strin
 		}
 		g.oblige("post", clauseLabel(e, i), t, e.Src)
 	}
+	// a function that writes package variables must re-establish the package's global invariants
+	if g.storesToGlobals() {
+		for i, gi := range g.eng.DB.GlobalInvs[pkgPathOf(g.fn)] {
+			t, err := env.EvalBool(gi.Expr)
+			if err != nil {
+				continue
+			}
+			g.oblige("globalinv", clauseLabel(gi, i), t, gi.Src)
+		}
+	}
 	// objects of a type with an invariant that this function allocated or received must satisfy it on exit
 	for i, p := range g.fn.Params {
 		if ti := g.typeInvOf(p.Type()); ti != nil {
@@ -745,4 +764,17 @@ func (g *vcgen) locsLoopInvariant(h *ssa.BasicBlock, locs []ssa.Value) bool {
 		}
 	}
 	return true
+}
+
+func (g *vcgen) storesToGlobals() bool {
+	for _, b := range g.fn.Blocks {
+		for _, ins := range b.Instrs {
+			if st, ok := ins.(*ssa.Store); ok {
+				if _, ok := st.Addr.(*ssa.Global); ok {
+					return true
+				}
+			}
+		}
+	}
+	return false
 }
